@@ -1,5 +1,7 @@
 package glslx
 
+import "verif/harness/xrt"
+
 // ---- syntax tree -----------------------------------------------------------
 
 // LayoutQual is one entry of a layout(...) qualifier: name or name = value.
@@ -308,4 +310,5 @@ type Unit struct {
 	decls    []Decl
 	refs     []Ref
 	problems []string
+	sev      []xrt.ScopeEv // declaration / reference event stream (C16, see ScopeEvents)
 }
